@@ -538,6 +538,11 @@ def emit_fn(b, u, m, d, items, idx, info, used_fns, probe_fn, deferred=None):
             return
         attr = weave_attr(fs, full, probe=False)
         b.add(attr[0], attr[1])
+        # the assumed contract's lines are clauses too (not counted as obligations of the stub -- it has none --, but a caller's
+        # failed precondition is attributed to the property tag of the clause it fails, e.g. `// [C13]` on is_canon(..))
+        for lineno, t in fs.spec:
+            if t.strip():
+                info["clauses"].append({"file": fs.specfile, "fn": full, "spec_line": lineno, "text": t.strip(), "props": clause_props(t, []), "where": "stub"})
         b.add("#[verifier::external_body]\n", ("gen", "R8"))
         vis = "pub "
         sig = src[it["sig_start"]:it["sig_end"]].decode()
